@@ -368,6 +368,14 @@ func (p *statsProcessor) extractSegmentStatsResults(iqr *iqr.IQR) (*iqr.IQR, err
 		if err != nil {
 			return nil, utils.TeeErrorf("qid=%v, statsProcessor.extractSegmentStatsResults: cannot create segment stats results; err=%v", iqr.GetQID(), err)
 		}
+
+		// The collected stats are now merged into p.searchResults. This
+		// function is called again by GetFinalResultIfExists() (e.g., after a
+		// Rewind() by a two-pass command further down the pipe), and merging
+		// the same stats once more would double every count and sum. So start
+		// a fresh collection; the next call merges nothing and reads the
+		// result from p.searchResults.
+		p.statsResults = segresults.InitStatsResults()
 	}
 
 	p.hasFinalResult = true
